@@ -8,12 +8,17 @@ Re-extracted from /repo on every check:
     the fact that the gate has no template (first arm of `declare_controlled_qasm!`: lower-cased struct name,
     parenthesised arguments, qubits);
   * the constructor parameter names of every gate (order of `new`);
-  * the string literals of the structural gates (Kron, Composite, Loop), of the default
-    `conditional_open_qasm` / `open_qasm` (src/export/openqasm.rs) and every string literal of
-    `Circuit::open_qasm` (src/circuit.rs) in source order;
-  * a fixed list of code shapes the model is written for (the macro body, `check_open_qasm_condition_bits`,
-    the condition word loop, the absence of an `impl OpenQasm for C<G>`).
-The generator raises ValueError on any shape it does not recognise (the check then reports the broken tie)."""
+  * the separators of the structural gates (Kron, Composite, Loop), the format of the default
+    `conditional_open_qasm` (src/export/openqasm.rs) and the texts `Circuit::open_qasm` (src/circuit.rs) writes:
+    header, declarations, bit names, one statement format per case and per measurement basis, in a fixed order
+    (case by case, independent of the order of the match arms);
+  * the code around them that the model is written for (the macro body, `check_open_qasm_condition_bits`,
+    the condition word loop, `is_full_register`, the absence of an `impl OpenQasm for C<G>`).
+The function bodies are read by a small statement reader (below): comparison is modulo white space, the ways of
+building a string (`format!`, `+`, `+=`, `push_str`, `[..].join(sep)`, `String::from`, argument-less `format!`)
+are reduced to one normal form (format string + hole expressions), immutable `let`s are followed, `if !c {a} else {b}`
+is read as `if c {b} else {a}`, and calls of private helpers taking the output string (`Self::f(&mut res, ..)?;`) are
+inlined one level.  The generator raises ValueError on anything else (the check then escalates: see vlib)."""
 import os, re
 import translate as T
 
@@ -164,39 +169,328 @@ def nr_bits_literal(all_src, ty):
     raise ValueError(NAME + ": nr_affected_bits of %s is not a literal" % ty)
 
 
+def require(cond, what):
+    if not cond:
+        raise ValueError(NAME + ": " + what)
+
+
+def squash(s):
+    return "".join(s.split())
+
+
+# ---------------------------------------------------------------------------------------------------------
+# A small reader of Rust function bodies.  It recognises only what the export functions use (`let`, `if`/`else`,
+# `match`, `for`, `return`, plain statements); everything is compared modulo white space, and the ways of building
+# a string (`format!`, `+`, `+=`, `push_str`, `[..].join(sep)`, `String::from`) are reduced to one normal form:
+# a format string with `{}` holes and the list of expressions that fill them.
+
+STR = r'"(?:[^"\\]|\\.)*"'
+
+
+def squash_keep(s):
+    """remove white space outside string literals"""
+    out, i = [], 0
+    while i < len(s):
+        c = s[i]
+        if c == '"':
+            j = i + 1
+            while s[j] != '"':
+                if s[j] == "\\":
+                    j += 1
+                j += 1
+            out.append(s[i:j + 1]); i = j + 1
+        elif c.isspace():
+            i += 1
+        else:
+            out.append(c); i += 1
+    return "".join(out)
+
+
+def scan(s, i, stops, braces=True):
+    """index of the first character among `stops` (of the arrow, if `stops` is "=>") at nesting depth 0, or len(s)"""
+    depth = 0
+    opens, closes = ("([{", ")]}") if braces else ("([", ")]")
+    while i < len(s):
+        c = s[i]
+        if c == '"':
+            i += 1
+            while s[i] != '"':
+                if s[i] == "\\":
+                    i += 1
+                i += 1
+        elif depth == 0 and (s.startswith("=>", i) if stops == "=>" else c in stops):
+            return i
+        elif c in opens:
+            depth += 1
+        elif c in closes:
+            depth -= 1
+        i += 1
+    return len(s)
+
+
+def split_top(s, sep):
+    out, i = [], 0
+    while True:
+        j = scan(s, i, sep)
+        out.append(s[i:j])
+        if j >= len(s):
+            return out
+        i = j + 1
+
+
+def skip_ws(s, i, extra=""):
+    while i < len(s) and (s[i].isspace() or s[i] in extra):
+        i += 1
+    return i
+
+
+KW = re.compile(r"(match|if|for|let|return)\b")
+
+
+def parse_if(s, i):
+    j = scan(s, i + 2, "{", braces=False)
+    cond = squash_keep(s[i + 2:j])
+    blk, end = block_after(s, j)
+    then = parse_stmts(blk[1:-1])
+    k = skip_ws(s, end)
+    em = re.compile(r"else\b").match(s, k)
+    if not em:
+        return ("if", cond, then, None), end
+    k = skip_ws(s, em.end())
+    if re.compile(r"if\b").match(s, k):
+        node, end = parse_if(s, k)
+        return ("if", cond, then, [node]), end
+    blk, end = block_after(s, k)
+    return ("if", cond, then, parse_stmts(blk[1:-1])), end
+
+
+def parse_arms(s):
+    arms, i = [], 0
+    while True:
+        i = skip_ws(s, i, ",")
+        if i >= len(s):
+            return arms
+        j = scan(s, i, "=>")
+        require(j < len(s), "match arm without `=>`: %r" % s[i:i + 60])
+        pat = squash_keep(s[i:j])
+        k = skip_ws(s, j + 2)
+        if s[k] == "{":
+            blk, i = block_after(s, k)
+            arms.append((pat, parse_stmts(blk[1:-1])))
+        else:
+            e = scan(s, k, ",")
+            arms.append((pat, parse_stmts(s[k:e])))
+            i = e
+
+
+def parse_stmts(s):
+    """statements of a block (text between its braces) as a list of nodes:
+    ("let", name, mutable, expr) | ("if", cond, then, else|None) | ("match", scrutinee, [(pattern, nodes)]) |
+    ("for", pattern, iterator, nodes) | ("return", expr) | ("stmt", text); all texts white-space free."""
+    nodes, i = [], 0
+    while True:
+        i = skip_ws(s, i, ";")
+        if i >= len(s):
+            return nodes
+        m = KW.match(s, i)
+        kw = m.group(1) if m else None
+        if kw == "match":
+            j = scan(s, m.end(), "{", braces=False)
+            blk, i2 = block_after(s, j)
+            nodes.append(("match", squash_keep(s[m.end():j]), parse_arms(blk[1:-1])))
+            i = i2
+        elif kw == "if":
+            node, i = parse_if(s, i)
+            nodes.append(node)
+        elif kw == "for":
+            j = scan(s, m.end(), "{", braces=False)
+            hm = re.match(r"\s*(.*?)\s+in\s+(.*)$", s[m.end():j], flags=re.S)
+            require(hm, "unrecognised for loop: %r" % s[i:j])
+            blk, i2 = block_after(s, j)
+            nodes.append(("for", squash_keep(hm.group(1)), squash_keep(hm.group(2)), parse_stmts(blk[1:-1])))
+            i = i2
+        else:
+            j = scan(s, i, ";")
+            text = s[i:j]
+            lm = re.match(r"let\s+(mut\s+)?(\w+)\s*(?::[^=]+?)?\s*=(?!=)\s*(.*)$", text, flags=re.S) if kw == "let" else None
+            if lm:
+                nodes.append(("let", lm.group(2), bool(lm.group(1)), squash_keep(lm.group(3))))
+            elif kw == "return":
+                nodes.append(("return", squash_keep(text[6:])))
+            else:
+                nodes.append(("stmt", squash_keep(text)))
+            i = j + 1
+
+
+def esc(lit):
+    return lit.replace("{", "{{").replace("}", "}}")
+
+
+def strip_ref(e):
+    """`&x`, `x.as_str()`, `x.clone()`, `&x[..]`-free spellings of the same string"""
+    while True:
+        if e.startswith("&"):
+            e = e[1:]
+        elif e.endswith(".as_str()"):
+            e = e[:-9]
+        elif e.endswith(".clone()") and re.fullmatch(r"\w+\.clone\(\)", e):
+            e = e[:-8]
+        else:
+            return e
+
+
+def string_expr(e):
+    """normal form (format string, hole expressions) of a string-valued expression (white-space free text)"""
+    e = strip_ref(e)
+    m = re.fullmatch(STR, e)
+    if m:
+        return esc(unescape(e[1:-1])), []
+    m = re.fullmatch(r"String::from\((%s)\)|(%s)\.to_string\(\)|(%s)\.to_owned\(\)|String::from\((%s)\.to_string\(\)\)" % (STR, STR, STR, STR), e)
+    if m:
+        lit = next(g for g in m.groups() if g is not None)
+        return esc(unescape(lit[1:-1])), []
+    if e == "String::new()":
+        return "", []
+    if e.startswith("format!(") and scan(e, 8, ")") == len(e) - 1:
+        parts = split_top(e[8:-1], ",")
+        require(re.fullmatch(STR, parts[0]), "format! without a literal format string: %r" % e)
+        fmt = unescape(parts[0][1:-1])
+        fmt_pieces(fmt)     # raises on holes with a spec
+        args = [p for p in parts[1:] if p != ""]
+        return fmt, args
+    m = re.fullmatch(r"\[(.*)\]\.join\((%s)\)" % STR, e)
+    if m and scan(e, 1, "]") == m.start(2) - 7:
+        sep = esc(unescape(m.group(2)[1:-1]))
+        items = [string_expr(x) for x in split_top(m.group(1), ",") if x != ""]
+        return sep.join(f for f, _ in items), [a for _, aa in items for a in aa]
+    terms = split_top(e, "+")
+    if len(terms) > 1:
+        items = [string_expr(t) for t in terms]
+        return "".join(f for f, _ in items), [a for _, aa in items for a in aa]
+    return "{}", [e]
+
+
+def resolve(e, env):
+    """follow immutable `let` bindings of plain identifiers"""
+    seen = 0
+    while True:
+        e = strip_ref(e)
+        if re.fullmatch(r"\w+", e) and e in env and seen < 8:
+            e = env[e]; seen += 1
+        else:
+            return e
+
+
+EMIT = re.compile(r"\*?(\w+)(\+=|\.push_str\()(.*)$", flags=re.S)
+
+
+def as_emit(node, acc):
+    """(format, holes) appended to the string variable `acc` by this statement, or None"""
+    if node[0] != "stmt":
+        return None
+    m = EMIT.fullmatch(node[1])
+    if not m or m.group(1) != acc:
+        return None
+    e = m.group(3)
+    if m.group(2) != "+=":
+        require(e.endswith(")"), "unrecognised push_str: %r" % node[1])
+        e = e[:-1]
+    return string_expr(e)
+
+
+def summarise(nodes, acc, env=None):
+    """nodes with every maximal run of statements appending to `acc` merged into one
+    ("emit", format, holes, env) — env: the immutable `let`s in scope; `let`s are dropped from the list."""
+    env = dict(env or {})
+    out = []
+    for nd in nodes:
+        em = as_emit(nd, acc)
+        if em is not None:
+            fmt, args = em
+            args = [resolve(a, env) for a in args]
+            if out and out[-1][0] == "emit":
+                out[-1] = ("emit", out[-1][1] + fmt, out[-1][2] + args, dict(env))
+            else:
+                out.append(("emit", fmt, args, dict(env)))
+        elif nd[0] == "let":
+            if nd[2]:
+                env.pop(nd[1], None)
+                out.append(("letmut", nd[1], nd[3]))
+            else:
+                env[nd[1]] = nd[3]
+        elif nd[0] == "if":
+            out.append(("if", nd[1], summarise(nd[2], acc, env), None if nd[3] is None else summarise(nd[3], acc, env)))
+        elif nd[0] == "match":
+            out.append(("match", nd[1], [(p, summarise(b, acc, env)) for p, b in nd[2]]))
+        elif nd[0] == "for":
+            out.append(("for", nd[1], nd[2], summarise(nd[3], acc, env)))
+        else:
+            out.append(nd)
+    return out
+
+
+def hole_formats(fmt):
+    """a format with n holes as n one-hole formats (text before the first hole goes to the first)"""
+    ps = fmt_pieces(fmt)
+    require(len(ps) > 1, "no hole in %r" % fmt)
+    return [esc(ps[0] if i == 0 else "") + "{}" + esc(ps[i + 1]) for i in range(len(ps) - 1)]
+
+
+def straight_line_string(nodes, what):
+    """(format, holes) returned by a function body without control flow: `let`s, appends to a local string, `Ok(e)`;
+    also returns the non-string statements met on the way (squashed)."""
+    env, accs, other = {}, {}, []
+    for k, nd in enumerate(nodes):
+        if nd[0] == "let":
+            if nd[2]:
+                accs[nd[1]] = string_expr(nd[3])
+                accs[nd[1]] = (accs[nd[1]][0], [resolve(a, env) for a in accs[nd[1]][1]])
+            else:
+                env[nd[1]] = nd[3]
+            continue
+        if nd[0] == "stmt":
+            m = EMIT.fullmatch(nd[1])
+            if m and m.group(1) in accs:
+                fmt, args = as_emit(nd, m.group(1))
+                accs[m.group(1)] = (accs[m.group(1)][0] + fmt, accs[m.group(1)][1] + [resolve(a, env) for a in args])
+                continue
+            m = re.fullmatch(r"Ok\((.*)\)", nd[1], flags=re.S)
+            if m and k == len(nodes) - 1:
+                e = m.group(1)
+                if e in accs:
+                    return accs[e], other, env
+                fmt, args = string_expr(resolve(e, env))
+                return (fmt, [resolve(a, env) for a in args]), other, env
+            other.append(nd[1])
+            continue
+        raise ValueError(NAME + ": %s: control flow in a body expected to be straight-line: %r" % (what, nd[:2]))
+    raise ValueError(NAME + ": %s: no final Ok(..)" % what)
+
+
+def fn_inner(block, fname, what):
+    body = fn_body(block, fname)
+    require(body is not None, "%s not found" % what)
+    return body.strip()[1:-1]
+
+
 def parse_handwritten(name, src, all_src):
     m = re.search(r"impl\s+crate::export::OpenQasm\s+for\s+%s\s*\{" % name, src)
     block, _ = block_after(src, m.start())
     override = "fn conditional_open_qasm" in block
-    body = fn_body(block, "open_qasm")
-    if body is None:
-        raise ValueError(NAME + ": %s has an impl OpenQasm without open_qasm" % name)
-    stmts = body.strip()[1:-1].strip()
+    (fmt, holes), other, env = straight_line_string(parse_stmts(fn_inner(block, "open_qasm", "%s::open_qasm" % name)),
+                                                    "%s::open_qasm" % name)
     check = "none"
-    cm = re.match(r"self\.check_nr_bits\(bits\.len\(\)\)\?;\s*", stmts)
-    if cm:
+    if other == ["self.check_nr_bits(bits.len())?"]:
         check = "(some %d)" % nr_bits_literal(all_src, name)
-        stmts = stmts[cm.end():]
-    lets = {}
-    while True:
-        lm = re.match(r"let\s+(\w+)\s*=\s*&bit_names\[bits\[(\d+)\]\];\s*", stmts)
-        if not lm:
-            break
-        lets[lm.group(1)] = int(lm.group(2))
-        stmts = stmts[lm.end():]
-    fm = re.fullmatch(r'Ok\(format!\(\s*"((?:[^"\\]|\\.)*)"\s*,(.*)\)\)', stmts, flags=re.S)
-    if not fm:
-        raise ValueError(NAME + ": unrecognised open_qasm body of %s: %r" % (name, stmts[:200]))
-    pieces = fmt_pieces(unescape(fm.group(1)))
+    else:
+        require(other == [], "unrecognised statements in open_qasm of %s: %r" % (name, other))
+    pieces = fmt_pieces(fmt)
     args = []
-    for a in split_args(fm.group(2)):
-        a = " ".join(a.split())
-        bm = re.fullmatch(r"&?bit_names\[bits\[(\d+)\]\]", a)
+    for a in holes:
+        bm = re.fullmatch(r"bit_names\[bits\[(\d+)\]\]", a)
         pm = re.fullmatch(r"self\.(\w+)", a)
         if bm:
             args.append(".bit %s" % bm.group(1))
-        elif a in lets:
-            args.append(".bit %d" % lets[a])
         elif pm:
             args.append(".param %s" % lean_str(pm.group(1)))
         else:
@@ -207,13 +501,249 @@ def parse_handwritten(name, src, all_src):
     return kind, override
 
 
-def require(cond, what):
-    if not cond:
-        raise ValueError(NAME + ": " + what)
+def find_nodes(nodes, kind):
+    return [nd for nd in nodes if nd[0] == kind]
 
 
-def squash(s):
-    return "".join(s.split())
+def structural_kron(block):
+    out = []
+    for meth, call in (("open_qasm", "open_qasm(bit_names,"), ("conditional_open_qasm", "conditional_open_qasm(condition,bit_names,")):
+        what = "Kron::" + meth
+        (fmt, holes), other, env = straight_line_string(parse_stmts(fn_inner(block, meth, what)), what)
+        require(other == [], "%s has unrecognised statements %r" % (what, other))
+        n0 = [k for k, v in env.items() if v == "self.g0.nr_affected_bits()"]
+        require(len(n0) == 1, "%s no longer splits the bits at self.g0.nr_affected_bits()" % what)
+        require(holes == ["self.g0.%s&bits[..%s])?" % (call, n0[0]), "self.g1.%s&bits[%s..])?" % (call, n0[0])],
+                "%s no longer joins the exports of g0 and g1 on the two bit ranges: %r" % (what, holes))
+        out.append(fmt)
+    ps = fmt_pieces(out[1])
+    require(len(ps) == 3 and ps[0] == "" and ps[2] == "", "Kron::conditional_open_qasm is no longer `<g0><separator><g1>`: %r" % out[1])
+    return ([out[0]], [esc(ps[1])])
+
+
+def structural_composite(block):
+    out = []
+    for meth, call in (("open_qasm", "open_qasm(bit_names,&gate_bits)?"), ("conditional_open_qasm", "conditional_open_qasm(condition,bit_names,&gate_bits)?")):
+        what = "Composite::" + meth
+        nodes = parse_stmts(fn_inner(block, meth, what))
+        shape = summarise(nodes, "res")
+        require(len(shape) == 3 and shape[0] == ("letmut", "res", "String::new()") and shape[2] == ("stmt", "Ok(res)")
+                and shape[1][0] == "if" and shape[1][1] in ("self.ops.len()>0", "!self.ops.is_empty()") and shape[1][3] is None,
+                "%s changed shape" % what)
+        inner_raw = find_nodes(nodes, "if")[0][2]
+        require(("let", "gate_bits", False, "self.ops[0].bits.iter().map(|&b|bits[b]).collect()") in inner_raw,
+                "%s no longer maps the bits of its first operation through `bits`" % what)
+        inner = shape[1][2]
+        require(len(inner) == 2 and inner[0] == ("stmt", "res=self.ops[0].gate." + call) and inner[1][0] == "for"
+                and inner[1][1:3] == ("op", "self.ops[1..].iter()"), "%s changed shape" % what)
+        loop = inner[1][3]
+        require(len(loop) == 1 and loop[0][0] == "emit", "%s: loop body changed shape" % what)
+        _, fmt, holes, env = loop[0]
+        require(holes == ["op.gate." + call] and env.get("gate_bits") == "op.bits.iter().map(|&b|bits[b]).collect()",
+                "%s: loop no longer appends the export of `op` on the mapped bits: %r" % (what, holes))
+        out.append(fmt)
+    ps = fmt_pieces(out[1])
+    require(len(ps) == 2 and ps[1] == "", "Composite::conditional_open_qasm no longer appends `<separator><gate>`: %r" % out[1])
+    return ([out[0]], [esc(ps[0])])
+
+
+def structural_loop(block):
+    out = []
+    for meth, call in (("open_qasm", "self.body.open_qasm(bit_names,bits)?"), ("conditional_open_qasm", "self.body.conditional_open_qasm(condition,bit_names,bits)?")):
+        what = "Loop::" + meth
+        shape = summarise(parse_stmts(fn_inner(block, meth, what)), "res")
+        require(len(shape) == 1 and shape[0][0] == "if" and shape[0][1] == "self.nr_iterations==0"
+                and shape[0][2] == [("stmt", "Ok(String::new())")] and shape[0][3] is not None, "%s changed shape" % what)
+        els = shape[0][3]
+        require(len(els) == 3 and els[0] == ("letmut", "res", "qasm_body.clone()") and els[1][0] == "for"
+                and els[1][1:3] == ("_", "1..self.nr_iterations") and els[2] == ("stmt", "Ok(res)"), "%s changed shape" % what)
+        loop = els[1][3]
+        require(len(loop) == 1 and loop[0][0] == "emit", "%s: loop body changed shape" % what)
+        _, fmt, holes, env = loop[0]
+        require(holes == [call] and env.get("qasm_body") == call, "%s: loop no longer appends the export of the body: %r" % (what, holes))
+        ps = fmt_pieces(fmt)
+        require(len(ps) == 2 and ps[1] == "", "%s no longer appends `<separator><body>`: %r" % (what, fmt))
+        out.append(esc(ps[0]))
+    return ([out[0]], [out[1]])
+
+
+def inline_helpers(body, src):
+    """replace every statement `Self::f(args)?;` / `self.f(args)?;` of `body`, where `f` is a function of `src` with a
+    `&mut String` parameter and no `return`, by the statements of `f` with the arguments substituted (one level)."""
+    def repl(m):
+        fname = m.group(1)
+        fm = re.search(r"fn\s+%s\s*\(([^)]*)\)" % fname, src)
+        if not fm or not re.search(r":\s*&mut\s+String", fm.group(1)):
+            return m.group(0)
+        params = [p.split(":")[0].strip() for p in split_args(fm.group(1)) if not re.fullmatch(r"&?(mut\s+)?self", p.strip())]
+        args = [a.strip() for a in split_top(m.group(2), ",")]
+        require(len(params) == len(args), "call of %s with %d arguments for %d parameters" % (fname, len(args), len(params)))
+        hbody, _ = block_after(src, fm.end())
+        inner = re.sub(r"Ok\(\(\)\)\s*$", "", hbody.strip()[1:-1].rstrip())
+        require(not re.search(r"\breturn\b", inner), "helper %s returns early" % fname)
+        sub = dict(zip(params, args))
+        out, prev = [], ""
+        for t in re.finditer(r'%s|\w+|\s+|.' % STR, inner, flags=re.S):
+            tok = t.group(0)
+            if tok in sub and prev != ".":
+                tok = sub[tok]
+            if not tok.isspace():
+                prev = tok
+            out.append(tok)
+        return re.sub(r"\*\s*&mut\s+", "", "".join(out)) + "\n"
+    return re.sub(r"\b[Ss]elf(?:::|\.)(\w+)\s*\(((?:[^()]|\([^()]*\))*)\)\s*\?\s*;", repl, body)
+
+
+FULL = lambda xs, n: ("%s.len()==self.%s&&%s.iter().enumerate().all(|(i,&b)|i==b)" % (xs, n, xs),
+                      "%s.len()==self.%s&&%s.iter().enumerate().all(|(i,&b)|b==i)" % (xs, n, xs))
+
+
+def basis_prefix(arms, names_ok, bits_ok, what):
+    """per basis: the one-hole formats and the operand names of the gates written before a measurement"""
+    table = dict(arms)
+    zs = [k for k in table if k in ("Basis::Z", "_")]
+    require(set(table) - set(zs) == {"Basis::X", "Basis::Y"} and len(zs) == 1 and table[zs[0]] == [],
+            "%s: basis cases are no longer X, Y and an empty rest: %r" % (what, sorted(table)))
+    res = {}
+    for basis, gates in (("Basis::X", ["H"]), ("Basis::Y", ["Sdg", "H"])):
+        body = table[basis]
+        require(len(body) == 1 and body[0][0] == "emit", "%s: %s case changed shape" % (what, basis))
+        _, fmt, holes, env = body[0]
+        got, names = [], []
+        for h in holes:
+            hm = re.fullmatch(r"crate::gates::(\w+)::new\(\)\.open_qasm\((.*),(&\[\w+\])\)\?", h)
+            require(hm and hm.group(3) == bits_ok, "%s: %s case writes %r" % (what, basis, h))
+            got.append(hm.group(1))
+            names.append(names_ok(strip_ref(hm.group(2)), env))
+        require(got == gates, "%s: %s case writes the gates %r, not %r" % (what, basis, got, gates))
+        res[basis] = (hole_formats(fmt), names)
+    return res
+
+
+def circuit_lits(circ):
+    cm = re.search(r"pub\s+fn\s+open_qasm\s*\(&self\)", circ)
+    require(cm, "Circuit::open_qasm not found")
+    cbody, _ = block_after(circ, cm.end())
+    cbody = inline_helpers(cbody, circ)
+    cs = squash_keep(cbody)
+    nodes = parse_stmts(cbody.strip()[1:-1])
+    top = summarise(nodes, "res")
+    lits = [None] * 27
+    # header and declarations
+    require(top and top[0][0] == "letmut" and top[0][1] == "res" and top[-1] == ("stmt", "Ok(res)"), "Circuit::open_qasm changed shape")
+    f0, a0 = string_expr(top[0][2])
+    require(a0 == [], "Circuit::open_qasm: header has holes")
+    lits[0] = f0
+    for k, (reg, n, names) in enumerate((("qreg", "nr_qbits", "qbit_names"), ("creg", "nr_cbits", "cbit_names"))):
+        decl = [nd for nd in top if nd[0] == "if" and nd[1] == "self.%s>0" % n]
+        require(len(decl) == 1 and decl[0][3] is None and decl[0][2] and decl[0][2][0][0] == "emit" and decl[0][2][0][2] == ["self." + n],
+                "Circuit::open_qasm no longer declares the %s when self.%s > 0" % (reg, n))
+        lits[1 + 2 * k] = decl[0][2][0][1]
+        ma = re.search(r"letmut%s=vec!\[\];" % names, cs) and re.search(
+            r"for(\w+)in0\.\.self\.%s\{%s\.push\(format!\((%s),\1\)\);\}" % (n, names, STR), cs)
+        mb = re.search(r"let%s(?::Vec<String>)?=\(0\.\.self\.%s\)\.map\(\|(\w+)\|format!\((%s),\1\)\)\.collect(?:::<Vec<String>>)?\(\);" % (names, n, STR), cs)
+        mm = ma or mb
+        require(mm, "Circuit::open_qasm: %s is no longer the list of `format!(.., i)` for i < self.%s" % (names, n))
+        lits[2 + 2 * k] = unescape(mm.group(2)[1:-1])
+    loops = [nd for nd in top if nd[0] == "for"]
+    require(len(loops) == 1 and loops[0][1:3] == ("op", "self.ops.iter()") and len(loops[0][3]) == 1 and loops[0][3][0][0] == "match"
+            and loops[0][3][0][1] in ("*op", "op"), "Circuit::open_qasm no longer matches on every operation in order")
+    arms = dict(loops[0][3][0][2])
+    want = {"CircuitOp::Gate(refgate,refbits)", "CircuitOp::ConditionalGate(refcontrol,target,refgate,refbits)",
+            "CircuitOp::Measure(qbit,cbit,basis)", "CircuitOp::MeasureAll(refcbits,basis)", "CircuitOp::Peek(_,_,_)",
+            "CircuitOp::PeekAll(_,_)", "CircuitOp::Reset(qbit)", "CircuitOp::ResetAll", "CircuitOp::Barrier(refqbits)"}
+    require(set(arms) == want and len(loops[0][3][0][2]) == len(want), "Circuit::open_qasm: cases changed: %r" % sorted(arms))
+    GATE = "gate.open_qasm(&qbit_names,bits)?"
+
+    def one_emit(body, holes, what):
+        require(len(body) == 1 and body[0][0] == "emit" and body[0][2] == holes, "Circuit::open_qasm: %s changed shape" % what)
+        return body[0][1]
+    lits[5] = one_emit(arms["CircuitOp::Gate(refgate,refbits)"], [GATE], "Gate case")
+    # conditional gate
+    cond = arms["CircuitOp::ConditionalGate(refcontrol,target,refgate,refbits)"]
+    require(len(cond) == 1 and cond[0][0] == "if" and cond[0][1] == "control.is_empty()" and cond[0][3] is not None,
+            "Circuit::open_qasm: ConditionalGate case changed shape")
+    lits[6] = one_emit(cond[0][2], [GATE], "ConditionalGate case (empty control)")
+    els = cond[0][3]
+    require(len(els) == 4 and els[0] == ("stmt", "self.check_open_qasm_condition_bits(control)?") and els[1] == ("letmut", "starget", "0")
+            and els[2] == ("for", "(tshift,sshift)", "control.iter().enumerate()", [("stmt", "starget|=((target>>tshift)&0x01)<<sshift")])
+            and els[3][0] == "emit", "Circuit::open_qasm: ConditionalGate case no longer checks the control bits, permutes the target word and writes the gate")
+    _, f8, h8, env8 = els[3]
+    require(h8 == ["gate.conditional_open_qasm(&condition,&qbit_names,bits)?"] and "condition" in env8,
+            "Circuit::open_qasm: ConditionalGate case writes %r" % (h8,))
+    f7, a7 = string_expr(env8["condition"])
+    require(a7 == ["starget"], "Circuit::open_qasm: condition no longer formats the permuted target word")
+    lits[7], lits[8] = f7, f8
+    # measure
+    me = arms["CircuitOp::Measure(qbit,cbit,basis)"]
+    require(len(me) == 2 and me[0][0] == "match" and me[0][1] == "basis", "Circuit::open_qasm: Measure case changed shape")
+
+    def is_qbit_names(e, env):
+        require(e == "qbit_names", "Circuit::open_qasm: Measure basis change no longer addresses qbit_names: %r" % e)
+        return e
+    pre = basis_prefix(me[0][2], is_qbit_names, "&[qbit]", "Circuit::open_qasm: Measure")
+    lits[9:10] = pre["Basis::X"][0]
+    lits[10:12] = pre["Basis::Y"][0]
+    lits[12] = one_emit(me[1:], ["qbit_names[qbit]", "cbit_names[cbit]"], "Measure case")
+    # measure all
+    ma = arms["CircuitOp::MeasureAll(refcbits,basis)"]
+    require(len(ma) == 2 and ma[0][0] == "match" and ma[0][1] == "basis" and ma[1][0] == "if" and ma[1][1] in FULL("cbits", "nr_cbits")
+            and ma[1][3] is not None, "Circuit::open_qasm: MeasureAll case changed shape")
+
+    def register_literal(e, env):
+        e = resolve(e, env)
+        rm = re.fullmatch(r"\[String::from\((%s)\)\]" % STR, e)
+        require(rm, "Circuit::open_qasm: MeasureAll basis change addresses %r, not a one-name list" % e)
+        return unescape(rm.group(1)[1:-1])
+    pre = basis_prefix(ma[0][2], register_literal, "&[0]", "Circuit::open_qasm: MeasureAll")
+    lits[13], lits[14] = pre["Basis::X"][1][0], pre["Basis::X"][0][0]
+    require(pre["Basis::Y"][1][0] == pre["Basis::Y"][1][1], "Circuit::open_qasm: MeasureAll Y case addresses two different names")
+    lits[15], lits[16], lits[17] = pre["Basis::Y"][1][0], pre["Basis::Y"][0][0], pre["Basis::Y"][0][1]
+    lits[18] = one_emit(ma[1][2], [], "MeasureAll case (whole register)")
+    loop = ma[1][3]
+    require(len(loop) == 1 and loop[0][0] == "for" and loop[0][1:3] == ("(qbit,&cbit)", "cbits.iter().enumerate()"),
+            "Circuit::open_qasm: MeasureAll case (bit by bit) changed shape")
+    lits[19] = one_emit(loop[0][3], ["qbit_names[qbit]", "cbit_names[cbit]"], "MeasureAll case (bit by bit)")
+    # peeks
+    for k, key in ((20, "CircuitOp::Peek(_,_,_)"), (21, "CircuitOp::PeekAll(_,_)")):
+        body = arms[key]
+        pm = len(body) == 1 and body[0][0] == "return" and re.fullmatch(
+            r"Err\(crate::error::Error::from\(crate::error::ExportError::ExportPeekInvalid\((%s)\)\)\)" % STR, body[0][1])
+        require(pm, "Circuit::open_qasm: %s no longer returns ExportPeekInvalid" % key)
+        lits[k] = unescape(pm.group(1)[1:-1])
+    lits[22] = one_emit(arms["CircuitOp::Reset(qbit)"], ["qbit_names[qbit]"], "Reset case")
+    lits[23] = one_emit(arms["CircuitOp::ResetAll"], [], "ResetAll case")
+    ba = arms["CircuitOp::Barrier(refqbits)"]
+    require(len(ba) == 1 and ba[0][0] == "if" and ba[0][1] in FULL("qbits", "nr_qbits") and ba[0][3] is not None,
+            "Circuit::open_qasm: Barrier case changed shape")
+    lits[24] = one_emit(ba[0][2], [], "Barrier case (whole register)")
+    els = ba[0][3]
+    require(len(els) == 1 and els[0][0] == "emit" and len(els[0][2]) == 1, "Circuit::open_qasm: Barrier case (listed bits) changed shape")
+    jm = re.fullmatch(r"qbits\.iter\(\)\.map\(\|&b\|qbit_names\[b\]\.as_str\(\)\)\.collect::<Vec<&str>>\(\)\.join\((%s)\)" % STR, els[0][2][0])
+    require(jm, "Circuit::open_qasm: Barrier case no longer joins the names of the listed bits: %r" % els[0][2][0])
+    lits[25], lits[26] = els[0][1], unescape(jm.group(1)[1:-1])
+    require(all(l is not None for l in lits), "Circuit::open_qasm: internal: literal missing")
+    # the condition check and the register test
+    km = re.search(r"fn\s+check_open_qasm_condition_bits", circ)
+    require(km, "check_open_qasm_condition_bits not found")
+    chk = parse_stmts(block_after(circ, km.end())[0].strip()[1:-1])
+    require(len(chk) == 1 and chk[0][0] == "if" and chk[0][3] is not None, "check_open_qasm_condition_bits changed shape")
+    _, c, th, el = chk[0]
+    if c.startswith("!"):
+        c, th, el = c[1:], el, th
+    require(c == "self.is_full_register(control)" and th == [("stmt", "Ok(())")]
+            and el == [("stmt", "Err(crate::error::ExportError::IncompleteConditionRegister)")], "check_open_qasm_condition_bits changed shape")
+    fm = re.search(r"fn\s+is_full_register", circ)
+    require(fm, "is_full_register not found")
+    fb = squash_keep(block_after(circ, fm.end())[0])
+    length = r"(?:letn=control\.len\(\);ifn!=self\.nr_cbits|(?:letn=control\.len\(\);)?ifcontrol\.len\(\)!=self\.nr_cbits)\{returnfalse;\}"
+    copy = r"letmut(?P<v>\w+)(?::Vec<usize>)?=(?:control\.to_vec\(\)|control\.to_owned\(\)|vec!\[0;(?:n|control\.len\(\))\];(?P=v)\.copy_from_slice\(control\));"
+    srt = r"(?P=v)\.sort(?:_unstable)?\(\);"
+    test = (r"(?:for(?P<i>\w+)in0\.\.(?:n|control\.len\(\)|(?P=v)\.len\(\))\{if(?P=v)\[(?P=i)\]!=(?P=i)\{returnfalse;\}\}true"
+            r"|(?P=v)\.iter\(\)\.enumerate\(\)\.all\(\|\((?P<j>\w+),&(?P<b>\w+)\)\|(?:(?P=b)==(?P=j)|(?P=j)==(?P=b))\))")
+    require(re.fullmatch(r"\{" + length + copy + srt + test + r"\}", fb),
+            "is_full_register is no longer: right length, and the sorted copy has `i` at position `i`")
+    return lits
 
 
 @T.generator(NAME)
@@ -232,33 +762,14 @@ def gen_OpenQasmTemplates(repo):
                 block, _ = block_after(src, m.start())
                 require("fn conditional_open_qasm" in block and "fn open_qasm" in block,
                         "%s no longer overrides both open_qasm and conditional_open_qasm" % name)
-                structural[name] = (rust_literals(fn_body(block, "open_qasm")),
-                                    rust_literals(fn_body(block, "conditional_open_qasm")),
-                                    squash(fn_body(block, "open_qasm")), squash(fn_body(block, "conditional_open_qasm")))
+                structural[name] = {"Kron": structural_kron, "Composite": structural_composite, "Loop": structural_loop}[name](block)
                 continue
             require(name != "C", "C<G> now implements OpenQasm")
             kind, override = parse_handwritten(name, src, all_src)
             params = new_params(src, name)
             require(params is not None, "no `new` found for %s" % name)
             entries[name] = (params, kind, override, nr_bits_literal(all_src, name))
-    # structural shapes the model is written for
-    require(structural.get("Kron", (None,))[:2] == (["{}; {}"], ["; "]), "Kron literals changed: %r" % (structural.get("Kron"),))
-    k_un, k_co = structural["Kron"][2:]
-    for needle in ("letn0=self.g0.nr_affected_bits();", "self.g0.open_qasm(bit_names,&bits[..n0])?", "self.g1.open_qasm(bit_names,&bits[n0..])?"):
-        require(needle in k_un, "Kron::open_qasm no longer contains `%s`" % needle)
-    for needle in ("self.g0.conditional_open_qasm(condition,bit_names,&bits[..n0])?", "self.g1.conditional_open_qasm(condition,bit_names,&bits[n0..])?"):
-        require(needle in k_co, "Kron::conditional_open_qasm no longer contains `%s`" % needle)
-    require(structural.get("Composite", (None,))[:2] == (["; {}"], ["; "]), "Composite literals changed: %r" % (structural.get("Composite"),))
-    c_un, c_co = structural["Composite"][2:]
-    for body, meth in ((c_un, "open_qasm(bit_names,&gate_bits)?"), (c_co, "conditional_open_qasm(condition,bit_names,&gate_bits)?")):
-        for needle in ("letmutres=String::new();", "ifself.ops.len()>0", "self.ops[0].bits.iter().map(|&b|bits[b]).collect()",
-                       "self.ops[0].gate." + meth, "foropinself.ops[1..].iter()", "op.bits.iter().map(|&b|bits[b]).collect()", "op.gate." + meth):
-            require(needle in body, "Composite export no longer contains `%s`" % needle)
-    require(structural.get("Loop", (None,))[:2] == ([";\n"], [";\n"]), "Loop literals changed: %r" % (structural.get("Loop"),))
-    l_un, l_co = structural["Loop"][2:]
-    for body, meth in ((l_un, "self.body.open_qasm(bit_names,bits)?"), (l_co, "self.body.conditional_open_qasm(condition,bit_names,bits)?")):
-        for needle in ("ifself.nr_iterations==0{Ok(String::new())}", meth, "letmutres=qasm_body.clone();", "for_in1..self.nr_iterations", "res+=&qasm_body;"):
-            require(needle in body, "Loop export no longer contains `%s`" % needle)
+    require(set(structural) == {"Kron", "Composite", "Loop"}, "Kron, Composite or Loop no longer implement OpenQasm")
     # the macro
     csrc = all_src["controlled.rs"]
     require(not re.search(r"impl<G>\s+crate::export::OpenQasm\s+for\s+C<G>", csrc), "C<G> now implements OpenQasm")
@@ -319,43 +830,15 @@ def gen_OpenQasmTemplates(repo):
         require(needle in pbody, "Display for Parameter no longer contains `%s`" % needle)
     # trait defaults
     dsrc = T.strip_rust_comments(T.read(repo, "src/export/openqasm.rs")).split("#[cfg(test)]")[0]
-    dbody = fn_body(dsrc, "conditional_open_qasm")
-    require(dbody is not None and "letuncond_qasm=self.open_qasm(bit_names,bits)?;" in squash(dbody), "default conditional_open_qasm changed shape")
-    dl = rust_literals(dbody)
-    require(dl == ["if ({}) {}"], "default conditional_open_qasm literals changed: %r" % dl)
+    (cond_fmt, cond_holes), other, _ = straight_line_string(parse_stmts(fn_inner(dsrc, "conditional_open_qasm", "default conditional_open_qasm")),
+                                                            "default conditional_open_qasm")
+    require(other == [] and cond_holes == ["condition", "self.open_qasm(bit_names,bits)?"],
+            "default conditional_open_qasm no longer combines the condition and the unconditional export: %r" % (cond_holes,))
     nbody = fn_body(dsrc, "open_qasm")
     require(nbody is not None and rust_literals(nbody) == ["OpenQasm"] and "NotImplemented" in nbody, "default open_qasm changed shape")
     # circuit
     circ = T.strip_rust_comments(T.read(repo, "src/circuit.rs")).split("#[cfg(test)]")[0]
-    cm = re.search(r"pub\s+fn\s+open_qasm\s*\(&self\)", circ)
-    require(cm, "Circuit::open_qasm not found")
-    cbody, _ = block_after(circ, cm.end())
-    clits = rust_literals(cbody)
-    cs = squash(cbody)
-    for needle in ("ifself.nr_qbits>0", "ifself.nr_cbits>0", "gate.open_qasm(&qbit_names,bits)?",
-                   "ifcontrol.is_empty(){res+=&format!(\"{};\\n\",gate.open_qasm(&qbit_names,bits)?);}",
-                   "self.check_open_qasm_condition_bits(control)?;",
-                   "for(tshift,sshift)incontrol.iter().enumerate(){starget|=((target>>tshift)&0x01)<<sshift;}",
-                   "gate.conditional_open_qasm(&condition,&qbit_names,bits)?",
-                   "Basis::X=>{res+=&format!(\"{};\\n\",crate::gates::H::new().open_qasm(&qbit_names,&[qbit])?);}",
-                   "Basis::Y=>{res+=&format!(\"{};\\n\",crate::gates::Sdg::new().open_qasm(&qbit_names,&[qbit])?);res+=&format!(\"{};\\n\",crate::gates::H::new().open_qasm(&qbit_names,&[qbit])?);}",
-                   "qbit_names[qbit],cbit_names[cbit]",
-                   "letnames=[String::from(\"q\")];res+=&format!(\"{};\\n\",crate::gates::H::new().open_qasm(&names,&[0])?);",
-                   "ifcbits.len()==self.nr_cbits&&cbits.iter().enumerate().all(|(i,&b)|i==b)",
-                   "for(qbit,&cbit)incbits.iter().enumerate()",
-                   "CircuitOp::Peek(_,_,_)=>{returnErr(crate::error::Error::from(crate::error::ExportError::ExportPeekInvalid(\"OpenQasm\")));}",
-                   "CircuitOp::PeekAll(_,_)=>{returnErr(crate::error::Error::from(crate::error::ExportError::ExportPeekInvalid(\"OpenQasm\")));}",
-                   "ifqbits.len()==self.nr_qbits&&qbits.iter().enumerate().all(|(i,&b)|i==b)",
-                   "qbits.iter().map(|&b|qbit_names[b].as_str()).collect::<Vec<&str>>().join(\",\")"):
-        require(needle in cs, "Circuit::open_qasm no longer contains `%s`" % needle)
-    km = re.search(r"fn\s+check_open_qasm_condition_bits", circ)
-    require(km and "if!self.is_full_register(control){Err(crate::error::ExportError::IncompleteConditionRegister)}else{Ok(())}"
-            in squash(block_after(circ, km.end())[0]), "check_open_qasm_condition_bits changed shape")
-    fm = re.search(r"fn\s+is_full_register", circ)
-    require(fm, "is_full_register not found")
-    fb = squash(block_after(circ, fm.end())[0])
-    for needle in ("letn=control.len();ifn!=self.nr_cbits{returnfalse;}", "scontrol.sort();", "ifscontrol[i]!=i{returnfalse;}"):
-        require(needle in fb, "is_full_register no longer contains `%s`" % needle)
+    clits = circuit_lits(circ)
     body = ",\n".join("  { name := %s, params := %s, nbits := %d, kind := %s, condOverride := %s }" % (
         lean_str(k), lean_list([lean_str(p) for p in entries[k][0]]), entries[k][3], entries[k][1],
         "true" if entries[k][2] else "false") for k in sorted(entries))
@@ -376,6 +859,6 @@ def gen_OpenQasmTemplates(repo):
             "def oqKronLits : List String × List String := (%s, %s)\n" % tuple(lean_list([lean_str(p) for p in structural["Kron"][i]]) for i in (0, 1)) +
             "def oqCompositeLits : List String × List String := (%s, %s)\n" % tuple(lean_list([lean_str(p) for p in structural["Composite"][i]]) for i in (0, 1)) +
             "def oqLoopLits : List String × List String := (%s, %s)\n" % tuple(lean_list([lean_str(p) for p in structural["Loop"][i]]) for i in (0, 1)) +
-            "def oqCondFormat : String := %s\n\n" % lean_str(dl[0]) +
+            "def oqCondFormat : String := %s\n\n" % lean_str(cond_fmt) +
             "/-- every string literal of `Circuit::open_qasm` in source order -/\n"
             "def oqCircuitLits : List String := [\n" + ",\n".join("  " + lean_str(l) for l in clits) + "\n]\n" + T.FOOTER)
